@@ -212,14 +212,19 @@ def c04(scn, out):
     for e in ev:
         if e['k'] == 'launch' and not e.get('use_cache'):
             launch_t[e['name']] = e['t']
+    end_t = {e['name']: e['t'] for e in ev if e['k'] == 'end'}
+    # The launch timestamp is taken in the parent *after* Process.start() returned (a lower bound of the
+    # process's life would otherwise be claimed too early); on a loaded machine the child can have run to its
+    # 'end' event before the parent gets to take it.  Such an interval is empty, not unbounded.
+    empty_proc = {n for n, t in launch_t.items() if n in end_t and end_t[n] <= t}
     for e in ev:
         if e['k'] == 'start':
             points.append((e['t'], 1, e['name'], 'run'))
-            if e['name'] in launch_t:
+            if e['name'] in launch_t and e['name'] not in empty_proc:
                 points.append((launch_t[e['name']], 1, e['name'], 'proc'))
         elif e['k'] == 'end':
             points.append((e['t'], -1, e['name'], 'run'))
-            if e['name'] in launch_t:
+            if e['name'] in launch_t and e['name'] not in empty_proc:
                 points.append((e['t'], -1, e['name'], 'proc'))
     points.sort(key=lambda p: (p[0], p[1]))
     live = {'run': set(), 'proc': set()}
